@@ -66,10 +66,6 @@ theorem C13_topological_partial (db : Db) (hns : NoUnsetup db) (fuel : Nat) (top
   have h2 := hlt _ huk
   exact ⟨_, _, hud, hvd, by omega⟩
 
-/-- `Distrib.createDependencies` installs in the order `dependencies.sort(key = -depth)` -/
-def buildOrder (out : List Entry) : List Entry :=
-  sortStable (fun a b => decide (b.depth.getD 0 ≤ a.depth.getD 0)) out
-
 theorem pairwise_insertS {β : Type} (le : β → β → Bool) (htot : ∀ a b, le a b = false → le b a = true)
     (htr : ∀ a b c, le a b = true → le b c = true → le a c = true) (x : β) :
     ∀ l : List β, l.Pairwise (fun a b => le a b = true) → (insertS le x l).Pairwise (fun a b => le a b = true) := by
